@@ -137,8 +137,10 @@ def _run_check(pid, root, runs=None):
     env["VERIF_REPO_ROOT"] = root
     env["VERIF_EVIDENCE_DIR"] = os.path.join(root, "evidence")
     cmd = [sys.executable, "-B", os.path.join(egsim.VERIF_ROOT, "check"), pid, "--tier", "quick"]
-    if runs:
-        cmd += ["--runs", str(runs)]
+    if runs is None:
+        # a quarter of the quick budget is the bar a change has to be caught within
+        runs = max(2000, engine.get_property(pid).budget["quick"]["runs"] // 4)
+    cmd += ["--runs", str(runs)]
     cp = subprocess.run(cmd, capture_output=True, text=True, env=env, timeout=3000, check=False)
     kinds = [ln for ln in cp.stdout.splitlines() if ln.startswith("violation kind=")]
     return cp.returncode, kinds, cp.stdout[-800:] + cp.stderr[-800:]
